@@ -114,6 +114,107 @@ Proof.
 Qed.
 Print Assumptions client_flags_follow_status_table.
 
+(* ---- the path a server takes: an error returned by a method -> http.ErrorEncoder ->
+        status line and body on the wire. Errors are arbitrary SHAPES: a service error
+        under any number of wrappers (fmt.Errorf %w, types with Unwrap), joined with
+        other errors (errors.Join), or no service error at all. ---- *)
+
+(* With the default formatter, on a fresh response writer, for EVERY error shape: exactly
+   one WriteHeader, whose status follows the documented table for the flags and name of
+   the first service error the chain holds (a fault when it holds none), then exactly one
+   body carrying that error's own name, id, message and flags. *)
+Theorem encoder_default_follows_table fid e :
+  error_encoder None fid e fresh_writer =
+  let c := encoded_core fid e in
+  {| wstatus := Some (if String.eqb (cname c) "unsupported_media_type" then 415 else if cfault c then 500
+                      else if ctimeout c then (if ctemporary c then 504 else 408)
+                      else if ctemporary c then 503 else 400);
+     wbodies := [ {| rname := cname c; rid := cid c; rmsg := cmsg c;
+                     rtimeout := ctimeout c; rtemporary := ctemporary c; rfault := cfault c |} ];
+     wcalls := 1 |}.
+Proof. exact (encoder_default fid e). Qed.
+Print Assumptions encoder_default_follows_table.
+
+(* the decision procedure of the code (errors.As) finds exactly the head of the list of
+   service errors the shape holds, in depth-first left-to-right order *)
+Theorem errors_as_finds_first_service_error e : find_serr e = hd_error (serrs e).
+Proof. exact (find_serr_hd e). Qed.
+Print Assumptions errors_as_finds_first_service_error.
+
+(* wrapping is irrelevant, at ANY depth: a service error under n wrappers is encoded,
+   from any writer state, exactly as the bare service error is *)
+Theorem encoder_wrapping_irrelevant ws fid c w :
+  error_encoder None fid (wrap_all ws (EServ c)) w = error_encoder None fid (EServ c) w.
+Proof. exact (encoder_wrap_all ws fid c w). Qed.
+Print Assumptions encoder_wrapping_irrelevant.
+
+(* ... so it is mapped from its own flags and name and sent with its own fields *)
+Theorem encoder_wrapped_service_error ws fid c :
+  error_encoder None fid (wrap_all ws (EServ c)) fresh_writer =
+  {| wstatus := Some (if String.eqb (cname c) "unsupported_media_type" then 415 else if cfault c then 500
+                      else if ctimeout c then (if ctemporary c then 504 else 408)
+                      else if ctemporary c then 503 else 400);
+     wbodies := [ {| rname := cname c; rid := cid c; rmsg := cmsg c;
+                     rtimeout := ctimeout c; rtemporary := ctemporary c; rfault := cfault c |} ];
+     wcalls := 1 |}.
+Proof. exact (encoder_wrapped_service ws fid c). Qed.
+Print Assumptions encoder_wrapped_service_error.
+
+(* an error that holds no service error anywhere is a permanent server fault: 500, name
+   "fault", fault flag only, the whole error text as message, a new identifier *)
+Theorem encoder_plain_error_is_fault fid e :
+  serrs e = [] ->
+  error_encoder None fid e fresh_writer =
+  {| wstatus := Some 500;
+     wbodies := [ {| rname := "fault"; rid := fid; rmsg := error_string e;
+                     rtimeout := false; rtemporary := false; rfault := true |} ];
+     wcalls := 1 |}.
+Proof. exact (encoder_no_service fid e). Qed.
+Print Assumptions encoder_plain_error_is_fault.
+
+(* the default mapping is total on error shapes *)
+Theorem encoder_status_total fid e :
+  exists s, wstatus (error_encoder None fid e fresh_writer) = Some s /\ In s [400; 408; 415; 500; 503; 504].
+Proof. exact (encoder_status_range fid e). Qed.
+Print Assumptions encoder_status_total.
+
+(* with a custom formatter — ANY formatter — the wire carries that formatter's status and
+   body, for every error shape *)
+Theorem encoder_custom_formatter_decides (f : formatter) fid e :
+  error_encoder (Some f) fid e fresh_writer =
+  {| wstatus := Some (fst (f e)); wbodies := [snd (f e)]; wcalls := 1 |}.
+Proof. exact (encoder_custom f fid e). Qed.
+Print Assumptions encoder_custom_formatter_decides.
+
+(* gRPC, every error shape: code from the flags of the first service error held (Unknown
+   when none), status message = the error text, detail = that error's fields; decoding
+   the detail gives back name, id, message and flags *)
+Theorem grpc_encode_follows_table fid e :
+  grpc_encode fid e =
+  (match serrs e with
+   | [] => Unknown
+   | c :: _ => if ctemporary c then Unavailable else if ctimeout c then DeadlineExceeded
+               else if cfault c then Internal else Unknown
+   end, error_string e, resp_of_core (encoded_core fid e)).
+Proof. exact (grpc_encode_spec fid e). Qed.
+Print Assumptions grpc_encode_follows_table.
+
+Theorem grpc_encode_roundtrip fid e :
+  core_of_resp (snd (grpc_encode fid e)) = drop_field (encoded_core fid e).
+Proof. exact (grpc_encode_back fid e). Qed.
+Print Assumptions grpc_encode_roundtrip.
+
+(* non-vacuity: a timeout service error under three wrappers and a join goes out as 408
+   with its own fields; a header written after a body would not count *)
+Example encoder_example :
+  let c := {| cname := "slow"; cid := "i1"; cfield := Some "f"; cmsg := "too slow"; ctimeout := true; ctemporary := false; cfault := false |} in
+  let e := EWrap "a" (EJoin (EPlain "p") (EWrap "b" (EWrap "c" (EServ c)))) in
+  error_encoder None "new" e fresh_writer =
+    {| wstatus := Some 408; wbodies := [ {| rname := "slow"; rid := "i1"; rmsg := "too slow"; rtimeout := true; rtemporary := false; rfault := false |} ]; wcalls := 1 |}
+  /\ error_string e = "a: p" ++ nl ++ "b: c: too slow"
+  /\ wstatus (write_header 408 (write_body (resp_of_core c) fresh_writer)) = Some 200.
+Proof. vm_compute. repeat split. Qed.
+
 Example history_reuse_example :
   (* all := Merge(a, b); then Merge(b, c): all's history still shows b's own message *)
   let mk n m := {| cur := {| cname := n; cid := ""; cfield := None; cmsg := m; ctimeout := false; ctemporary := false; cfault := false |}; hist := []; causes := [] |} in
